@@ -81,6 +81,14 @@ func failing(op, path string) error {
 	return nil
 }
 
+// BeforeZero consults the fault hook before a hole is punched into the file behind fd.
+func BeforeZero(fd int) error {
+	fdMu.Lock()
+	p := fdPath[fd]
+	fdMu.Unlock()
+	return failing("zero", p)
+}
+
 // LogZero records that [off, off+n) of the file behind fd was zeroed
 // (fallocate punch-hole); called by the vsyscall shim.
 func LogZero(fd int, off, n int64) {
